@@ -80,6 +80,26 @@ func (ex *Exec) noteBound(c *Term) {
 		ex.bounds[t.id] = r
 		ex.rngMemo = nil
 	}
+	if !(a.IsConst() && b.IsConst()) {
+		nonneg := func() bool { return ex.rangeOf(a).lo >= 0 && ex.rangeOf(b).lo >= 0 }
+		switch {
+		case c.op == OpSlt || (c.op == OpUlt && nonneg()):
+			if pos { // a < b : a-b <= -1
+				ex.noteDiff(a, b, -1, true)
+			} else { // a >= b : a-b >= 0
+				ex.noteDiff(a, b, 0, false)
+			}
+		case c.op == OpSle || (c.op == OpUle && nonneg()):
+			if pos {
+				ex.noteDiff(a, b, 0, true)
+			} else {
+				ex.noteDiff(a, b, 1, false)
+			}
+		case c.op == OpEq && pos:
+			ex.noteDiff(a, b, 0, true)
+			ex.noteDiff(a, b, 0, false)
+		}
+	}
 	switch c.op {
 	case OpSlt: // a < b
 		if pos {
@@ -268,6 +288,35 @@ func (ex *Exec) rangeOf(t *Term) rng {
 			r.hi = b.hi
 		}
 	}
+	if t.op == OpAdd && t.w == 64 && len(ex.bounds) > 0 {
+		// difference facts are stored for the linear part (constant removed, either sign)
+		tf := ex.tf
+		d := int64(0)
+		p := t
+		if c := t.args[len(t.args)-1]; c.IsConst() {
+			d = c.SVal()
+			p = tf.Sub(t, c)
+		}
+		if d > -diffSafe && d < diffSafe {
+			if b, ok := ex.bounds[p.id]; ok && p != t {
+				if b.lo > -diffSafe && b.lo+d > r.lo {
+					r.lo = b.lo + d
+				}
+				if b.hi < diffSafe && b.hi+d < r.hi {
+					r.hi = b.hi + d
+				}
+			}
+			if b, ok := ex.bounds[tf.Neg(p).id]; ok {
+				// -p in [lo,hi]  =>  p in [-hi,-lo]
+				if b.hi < diffSafe && b.hi > -diffSafe && -b.hi+d > r.lo {
+					r.lo = -b.hi + d
+				}
+				if b.lo > -diffSafe && b.lo < diffSafe && -b.lo+d < r.hi {
+					r.hi = -b.lo + d
+				}
+			}
+		}
+	}
 	ex.rngMemo[t.id] = r
 	return r
 }
@@ -292,6 +341,38 @@ func (ex *Exec) rangeDecide(c *Term) (val bool, ok bool) {
 	}
 	if len(c.args) != 2 || c.args[0].w == 0 {
 		return false, false
+	}
+	if !(c.args[0].IsConst() && c.args[1].IsConst()) {
+		signedOp := c.op == OpSlt || c.op == OpSle || c.op == OpEq
+		if !signedOp && (c.op == OpUlt || c.op == OpUle) && ex.rangeOf(c.args[0]).lo >= 0 && ex.rangeOf(c.args[1]).lo >= 0 {
+			signedOp = true
+		}
+		if signedOp {
+			if dr, ok := ex.diffRange(c.args[0], c.args[1]); ok {
+				res, dec := false, false
+				switch c.op {
+				case OpSlt, OpUlt: // a-b < 0
+					if dr.hi < 0 {
+						res, dec = true, true
+					} else if dr.lo >= 0 {
+						res, dec = false, true
+					}
+				case OpSle, OpUle:
+					if dr.hi <= 0 {
+						res, dec = true, true
+					} else if dr.lo > 0 {
+						res, dec = false, true
+					}
+				case OpEq:
+					if dr.hi < 0 || dr.lo > 0 {
+						res, dec = false, true
+					}
+				}
+				if dec {
+					return res != neg, true
+				}
+			}
+		}
 	}
 	a, b := ex.rangeOf(c.args[0]), ex.rangeOf(c.args[1])
 	res, dec := false, false
@@ -337,4 +418,94 @@ func (ex *Exec) rangeDecide(c *Term) (val bool, ok bool) {
 		return false, false
 	}
 	return res != neg, true
+}
+
+// ---------- difference bounds ----------
+//
+// Comparisons between two linear forms A and B whose values provably stay far from the
+// wrap-around point are facts about the integer difference A-B. The linear part P of A-B
+// (constant removed, sign normalised) is the key; facts P <= k / P >= k are kept in ex.bounds
+// like any other term bound. This decides chains such as  !(L+c1 <= S)  =>  !(L+c2 <= S) for
+// c2 >= c1 without a solver.
+
+const diffSafe = int64(1) << 61
+
+// diffKey returns (P, d, neg, ok) with A-B == sign*P + d as integers, sign = -1 if neg.
+func (ex *Exec) diffKey(a, b *Term) (p *Term, d int64, neg bool, ok bool) {
+	if a.w != 64 {
+		return nil, 0, false, false
+	}
+	ra, rb := ex.rangeOf(a), ex.rangeOf(b)
+	if ra.lo < -diffSafe || ra.hi > diffSafe || rb.lo < -diffSafe || rb.hi > diffSafe {
+		return nil, 0, false, false
+	}
+	tf := ex.tf
+	diff := tf.Sub(a, b)
+	d = 0
+	p = diff
+	if diff.IsConst() {
+		return nil, 0, false, false
+	}
+	if diff.op == OpAdd && diff.args[len(diff.args)-1].IsConst() {
+		c := diff.args[len(diff.args)-1]
+		d = c.SVal()
+		p = tf.Sub(diff, c)
+	}
+	if d < -diffSafe || d > diffSafe {
+		return nil, 0, false, false
+	}
+	n := tf.Neg(p)
+	if n.id < p.id {
+		return n, d, true, true
+	}
+	return p, d, false, true
+}
+
+// noteDiff records the fact  A-B <= k  (upper=true) or A-B >= k.
+func (ex *Exec) noteDiff(a, b *Term, k int64, upper bool) {
+	p, d, neg, ok := ex.diffKey(a, b)
+	if !ok {
+		return
+	}
+	// sign*P + d <= k  =>  sign*P <= k-d
+	k -= d
+	if neg {
+		// -P <= k  =>  P >= -k ;  -P >= k => P <= -k
+		k = -k
+		upper = !upper
+	}
+	r, has := ex.bounds[p.id]
+	if !has {
+		r = fullRange(64)
+	}
+	if upper && k < r.hi {
+		r.hi = k
+	}
+	if !upper && k > r.lo {
+		r.lo = k
+	}
+	ex.bounds[p.id] = r
+	ex.rngMemo = nil
+}
+
+// diffRange returns the integer range of A-B from difference facts, if A and B are safe.
+func (ex *Exec) diffRange(a, b *Term) (rng, bool) {
+	p, d, neg, ok := ex.diffKey(a, b)
+	if !ok {
+		return rng{}, false
+	}
+	r := ex.rangeOf(p)
+	if r.lo < -2*diffSafe || r.hi > 2*diffSafe {
+		// clamp: the true difference is within +-2*diffSafe anyway
+		if r.lo < -2*diffSafe {
+			r.lo = -2 * diffSafe
+		}
+		if r.hi > 2*diffSafe {
+			r.hi = 2 * diffSafe
+		}
+	}
+	if neg {
+		r = rng{-r.hi, -r.lo}
+	}
+	return rng{r.lo + d, r.hi + d}, true
 }
